@@ -10,7 +10,7 @@ import itertools
 
 from d42.migration.migrate_v1_to_v2 import mapping, rewrite_imports
 
-from ..runner import Acc, parallel
+from ..runner import Acc, parallel, parallel_fresh
 
 SIMPLE = [
     ("imp1", "from district42 import schema"),
@@ -177,18 +177,23 @@ def modules(tier):
                 f"import os\nfrom {old_mod} import {name} as zz\nx = zz\n"
 
 
-def worker(shard, nshards, tier, seed):
+def worker(shard, nshards, tier, seed, mode="shard"):
     acc = Acc()
-    if shard == 0:
+    if shard == 0 and mode == "shard":
         n, bad = check_targets()
         acc.count("mapping_targets", n)
         for b in bad:
             acc.violation(f"C19|mapping-target-not-importable|{b[2]}.{b[3]}", {"target": list(b)})
         for b in local_name_preserved():
             acc.violation(f"C19|mapped-name-changes-local-binding|{b[0]}.{b[1]}", {"entry": list(b)})
-    for i, (desc, src) in enumerate(modules(tier)):
-        if i % nshards != shard:
-            continue
+    todo = ((i, m) for i, m in enumerate(modules(tier)) if i % nshards == shard)
+    if mode == "one-process":
+        # every module of at most two statements (that includes one module per mapped name) in ONE
+        # process, forwards then backwards: what the rewriter keeps between calls meets a module
+        # that binds the same names differently
+        small = [(i, m) for i, m in enumerate(modules(tier)) if len(m[0][0]) <= 2]
+        todo = small + small[::-1]
+    for i, (desc, src) in todo:
         kind = judge(src)
         if kind == "INVALID-INPUT":
             acc.count("skipped_invalid_input")
@@ -211,6 +216,10 @@ def worker(shard, nshards, tier, seed):
 
 def run(tier, seed):
     acc = parallel(worker, tier, seed)
+    one = parallel_fresh(worker, tier, seed, nshards=1, extra=("one-process",))
+    one.n = type(one.n)({"one_process:" + k: c for k, c in one.n.items()})
+    one.outcomes = set()
+    acc.merge(one)
     cov = {
         "states": acc.n["modules"],
         "transitions": acc.n["modules"],
@@ -223,6 +232,7 @@ def run(tier, seed):
                 "per mapped name (plain and aliased); non-trivial = contains a mapped top-level import",
         "exhaustive": True,
         "bounds": {"tier": tier, "max_statements": NSTMT[tier], "mapping_targets": acc.n["mapping_targets"]},
+        "one_process_pass": {"modules_forwards_and_backwards": acc.n["one_process:modules"]},
     }
     return acc, cov, ["comments are not statements; their loss is not a violation",
                       "the weaker reading of 'nothing to do' is used (None only wrong if a mapped "
